@@ -45,6 +45,7 @@ func runC05(c *Ctx) {
 	c.Rule("C05.timer", "the send timer is armed only around a Send: stopped after every Send and whenever the sender waits for the next item, so a POLL stream that idles between triggers is not ended by a stale timer")
 	sendTimerDiscipline(c, "C05.timer")
 	c.Borrow("C11", map[string]string{"C11.token": "C05.wakeup", "C11.wait-set": "C05.wait-set"}, "a lost wake-up leaves the sender asleep before the sync marker of a poll round: the poll is never answered")
+	c.Borrow("C09", map[string]string{"C09.query-table": "C05.query-table"}, "the snapshot is what ctree.Query selects: per node the query descent must reach every child a glob covers and exactly the named child otherwise, or matching leaves are missing from the ONCE/POLL answer")
 	c.Borrow("C08", map[string]string{"C08.dup-clone": "C05.dup-clone"}, "a duplicate count written into the cached notification is returned by every later ONCE/POLL as a value no writer stored")
 	c.Rule("C05.once", "ONCE: Subscribe starts exactly one goroutine whose body is processSubscription followed unconditionally by queue.Close(), plus the sender; no registration with the match tree. sendStreamingResults: queue closed => errC <- nil and return without another Send")
 	c.Rule("C05.drain", "coalesce.Next never reports closed while items are pending (closed arm with Len()==1 retries next())")
@@ -337,17 +338,22 @@ func runC05(c *Ctx) {
 	}
 	completePathTable(c, "C05.complete-path")
 	// ---- cache lock discipline on the walk path
-	{
-		fTargets := P.Field("cache", "Cache", "targets")
-		fCMu := P.Field("cache", "Cache", "mu")
-		if fTargets == nil || fCMu == nil {
-			c.Unresolved("C05.walk-locks", "cache.Cache.targets / mu")
-		} else {
-			la := NewLockAudit(c, "cache", map[*types.Var]*types.Var{fTargets: fCMu}, 2)
-			la.Report(func(kind string) string { return "C05.walk-locks" })
-			c.Check(la.Accesses >= 8, "C05.walk-locks", "cache", "guarded accesses analysed", "", fmt.Sprintf("%d accesses of Cache.targets on paths, %d directly under Cache.mu", la.Accesses, la.Guarded))
-		}
+	walkLocks(c, "C05.walk-locks")
+}
+
+// walkLocks: lock discipline of Cache.mu / Cache.targets (shared by the properties that depend on the
+// all-targets walk not wedging the cache).
+func walkLocks(c *Ctx, rule string) {
+	P := c.P
+	fTargets := P.Field("cache", "Cache", "targets")
+	fCMu := P.Field("cache", "Cache", "mu")
+	if fTargets == nil || fCMu == nil {
+		c.Unresolved(rule, "cache.Cache.targets / mu")
+		return
 	}
+	la := NewLockAudit(c, "cache", map[*types.Var]*types.Var{fTargets: fCMu}, 2)
+	la.Report(func(kind string) string { return rule })
+	c.Check(la.Accesses >= 8, rule, "cache", "guarded accesses analysed", "", fmt.Sprintf("%d accesses of Cache.targets on paths, %d directly under Cache.mu", la.Accesses, la.Guarded))
 }
 
 // completePathTable: decision table of path.CompletePath (shared by C05 and C19).
